@@ -5,6 +5,7 @@ PROP = {
     "targets": [
         {"name": "crc_enum", "mode": "enum"},
         {"name": "crc", "quick": 2000000, "thorough": 40000000, "maxlen": 300},
+        {"name": "crc_long", "quick": 6000, "thorough": 100000, "maxlen": 40},
     ],
     "fuzz": [{"name": "crc", "secs": 60, "maxlen": 300}],
 }
